@@ -55,7 +55,7 @@ func errClass(err error) string {
 func (c *Cluster) newOp(kind, node, arg string) *ClientOp {
 	c.mu.Lock()
 	c.nextOp++
-	op := &ClientOp{ID: c.nextOp, Kind: kind, Node: node, Arg: arg}
+	op := &ClientOp{ID: c.nextOp, Kind: kind, Node: node, Arg: arg, inc: c.byID[node].inc}
 	c.ops = append(c.ops, op)
 	c.mu.Unlock()
 	return op
@@ -68,11 +68,58 @@ func (c *Cluster) opDone(op *ClientOp, err error, index uint64, resp string, ext
 	op.Index = index
 	op.Resp = resp
 	c.mu.Unlock()
+	if op.inc != nil {
+		// the caller of a crashed server hears nothing: whatever the zombie incarnation says is dropped.
+		// (a graceful Shutdown is different: its answers are real)
+		op.inc.mu.Lock()
+		zombie := op.inc.dead && !op.inc.graceful
+		op.inc.mu.Unlock()
+		if zombie {
+			c.Tr.Emit("lost", op.Node, M{"op": op.ID, "kind": op.Kind})
+			return
+		}
+	}
 	kv := M{"op": op.ID, "kind": op.Kind, "arg": op.Arg, "err": op.Err, "idx": index, "resp": resp}
 	for k, v := range extra {
 		kv[k] = v
 	}
 	c.Tr.Emit("return", op.Node, kv)
+}
+
+func (c *Cluster) setFut(op *ClientOp, f raft.Future) {
+	c.mu.Lock()
+	op.fut = f
+	c.mu.Unlock()
+}
+
+// ResolveStranded records every operation that is still unresolved as stranded and
+// force-resolves its future so that the waiting goroutine can exit.
+func (c *Cluster) ResolveStranded() int {
+	c.mu.Lock()
+	var st []*ClientOp
+	for _, o := range c.ops {
+		if !o.Done {
+			st = append(st, o)
+		}
+	}
+	c.mu.Unlock()
+	for _, o := range st {
+		up := c.byID[o.Node].Up
+		zombie := false
+		if o.inc != nil {
+			o.inc.mu.Lock()
+			zombie = o.inc.dead && !o.inc.graceful
+			o.inc.mu.Unlock()
+		}
+		if !zombie { // the caller of a crashed process is gone with it
+			c.Tr.Emit("stranded", o.Node, M{"op": o.ID, "kind": o.Kind, "arg": o.Arg, "inapi": o.fut == nil, "nodeup": up})
+		}
+		if o.fut != nil {
+			raft.VerifForceRespond(o.fut, errors.New("sim: stranded future force-resolved"))
+		}
+	}
+	synctest.Wait()
+	return len(st)
 }
 
 // PendingOps counts unresolved client operations.
@@ -100,9 +147,10 @@ func (c *Cluster) Apply(id string, timeout time.Duration) *ClientOp {
 	c.mu.Unlock()
 	op := c.newOp("apply", id, p)
 	r := n.Raft
-	c.Tr.Emit("invoke", id, M{"op": op.ID, "kind": "apply", "arg": p, "inc": n.incN, "timeout_us": int64(timeout / time.Microsecond)})
+	c.Tr.Emit("invoke", id, M{"op": op.ID, "kind": "apply", "arg": p, "inc": n.incN, "timeout_us": int64(timeout / time.Microsecond), "nodeup": n.Up})
 	go func() {
 		f := r.Apply([]byte(p), timeout)
+		c.setFut(op, f)
 		err := f.Error()
 		resp := ""
 		var idx uint64
@@ -125,9 +173,10 @@ func (c *Cluster) Barrier(id string, timeout time.Duration) *ClientOp {
 	op := c.newOp("barrier", id, "")
 	r := n.Raft
 	fsm := n.FSM
-	c.Tr.Emit("invoke", id, M{"op": op.ID, "kind": "barrier", "inc": n.incN})
+	c.Tr.Emit("invoke", id, M{"op": op.ID, "kind": "barrier", "inc": n.incN, "nodeup": n.Up})
 	go func() {
 		f := r.Barrier(timeout)
+		c.setFut(op, f)
 		err := f.Error()
 		var idx uint64
 		if err == nil {
@@ -147,10 +196,11 @@ func (c *Cluster) Verify(id string) *ClientOp {
 	}
 	op := c.newOp("verify", id, "")
 	r := n.Raft
-	c.Tr.Emit("invoke", id, M{"op": op.ID, "kind": "verify", "inc": n.incN, "term": r.CurrentTerm()})
+	c.Tr.Emit("invoke", id, M{"op": op.ID, "kind": "verify", "inc": n.incN, "term": r.CurrentTerm(), "nodeup": n.Up})
 	go func() {
-		err := r.VerifyLeader().Error()
-		c.opDone(op, err, 0, "", nil)
+		f := r.VerifyLeader()
+		c.setFut(op, f)
+		c.opDone(op, f.Error(), 0, "", nil)
 	}()
 	return op
 }
@@ -163,7 +213,7 @@ func (c *Cluster) Member(id, cmd, target string, prev uint64, timeout time.Durat
 	}
 	op := c.newOp(cmd, id, target)
 	r := n.Raft
-	c.Tr.Emit("invoke", id, M{"op": op.ID, "kind": cmd, "arg": target, "prev": prev, "inc": n.incN})
+	c.Tr.Emit("invoke", id, M{"op": op.ID, "kind": cmd, "arg": target, "prev": prev, "inc": n.incN, "nodeup": n.Up})
 	go func() {
 		var f raft.IndexFuture
 		switch cmd {
@@ -176,6 +226,7 @@ func (c *Cluster) Member(id, cmd, target string, prev uint64, timeout time.Durat
 		case "remove":
 			f = r.RemoveServer(raft.ServerID(target), prev, timeout)
 		}
+		c.setFut(op, f)
 		err := f.Error()
 		var idx uint64
 		if err == nil {
@@ -193,7 +244,7 @@ func (c *Cluster) Transfer(id, target string) *ClientOp {
 	}
 	op := c.newOp("transfer", id, target)
 	r := n.Raft
-	c.Tr.Emit("invoke", id, M{"op": op.ID, "kind": "transfer", "arg": target, "inc": n.incN})
+	c.Tr.Emit("invoke", id, M{"op": op.ID, "kind": "transfer", "arg": target, "inc": n.incN, "nodeup": n.Up})
 	go func() {
 		var f raft.Future
 		if target == "" {
@@ -201,6 +252,7 @@ func (c *Cluster) Transfer(id, target string) *ClientOp {
 		} else {
 			f = r.LeadershipTransferToServer(raft.ServerID(target), raft.ServerAddress(target))
 		}
+		c.setFut(op, f)
 		c.opDone(op, f.Error(), 0, "", nil)
 	}()
 	return op
@@ -213,9 +265,11 @@ func (c *Cluster) UserSnapshot(id string) *ClientOp {
 	}
 	op := c.newOp("snapshot", id, "")
 	r := n.Raft
-	c.Tr.Emit("invoke", id, M{"op": op.ID, "kind": "snapshot", "inc": n.incN})
+	c.Tr.Emit("invoke", id, M{"op": op.ID, "kind": "snapshot", "inc": n.incN, "nodeup": n.Up})
 	go func() {
-		c.opDone(op, r.Snapshot().Error(), 0, "", nil)
+		f := r.Snapshot()
+		c.setFut(op, f)
+		c.opDone(op, f.Error(), 0, "", nil)
 	}()
 	return op
 }
@@ -232,10 +286,73 @@ func (c *Cluster) UserRestore(id string, ids []string, index, term uint64, timeo
 	c.Tr.Emit("invoke", id, M{"op": op.ID, "kind": "restore", "content": strs(ids), "sidx": index, "sterm": term, "inc": n.incN, "last": r.LastIndex()})
 	go func() {
 		meta := &raft.SnapshotMeta{Version: 1, ID: "user", Index: index, Term: term, Size: int64(len(data))}
-		err := r.Restore(meta, bytes.NewReader(data), timeout)
+		err := r.Restore(meta, &userReader{c: c, n: n, r: bytes.NewReader(data)}, timeout)
 		c.opDone(op, err, 0, "", nil)
 	}()
 	return op
+}
+
+// userReader marks its node while Raft.Restore streams the caller's snapshot into a sink,
+// so that the snapshot-close event can be attributed to the user restore.
+type userReader struct {
+	c *Cluster
+	n *Node
+	r *bytes.Reader
+}
+
+func (u *userReader) Read(p []byte) (int, error) {
+	u.c.mu.Lock()
+	u.n.userRestoreActive = true
+	u.c.mu.Unlock()
+	return u.r.Read(p)
+}
+
+// ConsumeNotify reads one value from the node's NotifyCh if there is one.
+func (c *Cluster) ConsumeNotify(id string) bool {
+	n := c.byID[id]
+	if n.Notify == nil {
+		return false
+	}
+	select {
+	case v := <-n.Notify:
+		c.Tr.Emit("notify", id, M{"val": v, "inc": n.incN})
+		return true
+	default:
+		return false
+	}
+}
+
+// Quiesce declares the cluster at rest: drains notifications, reads LeaderCh, dumps FSM contents.
+func (c *Cluster) Quiesce(expectConv bool) {
+	c.DeliverAll(500)
+	for _, n := range c.Nodes {
+		if n.Up {
+			for c.ConsumeNotify(n.ID) {
+				c.Settle("consume")
+			}
+		}
+	}
+	fsm := M{}
+	lch := M{}
+	for _, n := range c.Nodes {
+		if !n.Up {
+			continue
+		}
+		fsm[n.ID] = strs(n.FSM.Content())
+		v := ""
+		select {
+		case b := <-n.Raft.LeaderCh():
+			if b {
+				v = "true"
+			} else {
+				v = "false"
+			}
+		default:
+		}
+		lch[n.ID] = v
+	}
+	c.Tr.Emit("quiesce", "", M{"expectconv": expectConv, "fsm": fsm, "leaderch": lch, "notifydrained": c.Opt.NotifyBuf >= 0,
+		"expectstable": c.Opt.ExpectStable})
 }
 
 // ---------------------------------------------------------------- scheduler primitives
@@ -276,6 +393,15 @@ func (c *Cluster) UpNodes() []string {
 func (c *Cluster) DeliverAll(max int) int {
 	k := 0
 	for k < max {
+		if c.autoConsume {
+			for _, n := range c.Nodes {
+				if n.Up {
+					for c.ConsumeNotify(n.ID) {
+						c.Settle("consume")
+					}
+				}
+			}
+		}
 		p := c.Net.Pending()
 		if len(p) == 0 {
 			break
@@ -335,6 +461,8 @@ type Weights struct {
 	Shutdown                            int
 	FsmGate, FsmRelease                 int
 	SlowWrite, ReleaseWrite             int
+	Consume                             int
+	OpOnDown                            int
 	MaxCrashes, MaxOps, MaxMember       int
 	MaxDown                             int
 }
@@ -516,6 +644,37 @@ func (s *sched) step() {
 			c.Settle("fsm")
 		})
 	}
+	if len(up) > 0 {
+		add(w.Consume, func() {
+			if c.ConsumeNotify(up[rng.Intn(len(up))]) {
+				c.Settle("consume")
+			}
+		})
+	}
+	var shut []string
+	for _, n := range c.Nodes {
+		if !n.Up && n.everStarted && n.graceful {
+			shut = append(shut, n.ID)
+		}
+	}
+	if len(shut) > 0 {
+		add(w.OpOnDown, func() {
+			id := shut[rng.Intn(len(shut))]
+			switch rng.Intn(5) {
+			case 0:
+				c.Apply(id, 0)
+			case 1:
+				c.Barrier(id, 5*time.Millisecond)
+			case 2:
+				c.Verify(id)
+			case 3:
+				c.Member(id, "addnonvoter", "n9", 0, 0)
+			default:
+				c.UserSnapshot(id)
+			}
+			c.Settle("client")
+		})
+	}
 	if len(down) > 0 {
 		add(w.Restart, func() { c.Start(down[rng.Intn(len(down))]); c.Settle("restart") })
 	}
@@ -586,6 +745,7 @@ func (c *Cluster) StopFaults() {
 			n.inc.Unpark()
 		}
 	}
+	c.autoConsume = true // from now on the application reads its NotifyCh promptly
 	c.Tr.Emit("faultsstopped", "", nil)
 	c.Settle("stopfaults")
 }
